@@ -3,7 +3,7 @@ from contracts_types import *
 NAME = 'events'
 FEATURES = []
 USES = ['use vstd::string::*;', 'use std::collections::HashSet;', 'use std::collections::VecDeque;']
-PRELUDE = ['common.shim.rs', 'error.spec.rs', 'events.spec.rs', 'events.shim.rs']
+PRELUDE = ['common.shim.rs', 'error.spec.rs', 'evnodes.spec.rs', 'events.spec.rs', 'events.shim.rs']
 SUBST = SUBST_COMMON + [
     (r"Cow<'(a|de|_), str>", r"CowStr<'\1>"),
     (r'FastHashSet<KeyFingerprint>', 'HashSet<KeyFingerprint>'),
